@@ -44,7 +44,8 @@ DESIGN_LIVE = ("Acct", "MC_code_live.cfg")
 ASSUMPTIONS = [
     "RADIUS unreachable = the request is not received and not answered; an accepted request is always acknowledged (DESIGN.md section 6); runs in which the harness cannot establish this (reply later than the client timeout, scheduler stall) are dropped as inconclusive, never judged",
     "any restart of the manager (crash or graceful Stop + new instance) ends the incarnation; duplicate Stops are only forbidden within one incarnation (DESIGN.md section 6)",
-    "accounting 'was started' for a session when StartSession returned nil; a session is 'over' when StopSession returned nil or the incarnation holding it ended; the liveness clause is judged at quiescence (queue drained, processor idle for more than one retry tick, peer up)",
+    "accounting 'was started' for a session when StartSession returned nil; a session is 'over' when StopSession returned nil or the incarnation holding it ended; the liveness clause is judged at quiescence (queue drained, processor idle for more than one retry tick); a Stop that is only on disk then excuses a session solely 'while the server stays down', i.e. if the peer would still refuse the next Stop of that session",
+    "watchdog: an API call of the manager (StartSession, StopSession, interim, Stop()) that has not returned after 20 s of real time (the code's own timeouts bound a call by about 6 s; windows with more than 5 s of recorded scheduler stalls are dropped as inconclusive) is recorded as the event 'hang' once the retry queue has drained, and ends the run: absent a crash nothing further can happen, so the sessions that are over - plus the session whose StopSession is the blocked call, or all live sessions if Stop() is the blocked call - must have their Stop accepted by then. The call runs on its own goroutine and the blocked incarnation is abandoned; that a call returns is not required as such",
     "within the retry budget = no record kind is refused more than MaxRetries times in the run; otherwise EventuallyStopped is waived for that run (safety clauses are still judged)",
     "a crash is: snapshot of the persistence directory at the crash-point marker + the incarnation's peer socket stops answering + a new manager on the snapshot; os.WriteFile is treated as atomic (no torn files)",
     "the pending-record processor is scheduled by the harness through the proc.begin marker (one processPendingRecord per 'pump'; free-running during graceful Stop and in the final phase); API calls are sequential",
@@ -77,6 +78,8 @@ def _tags(evs, detail=None):
             tags.add("graceful")
         elif op == "drop":
             tags.add("%s-refused" % e.get("typ"))
+        elif op == "hang":
+            tags.add("hang@%s" % e.get("call", "?"))
     tags.add("crashed" if crashed else "nocrash")
     last = evs[-1] if evs else {}
     if last.get("op") in ("recv", "drop") and "sid" in last:
@@ -425,7 +428,7 @@ MANIFEST = {
         text=("TLC decides it on two levels. (1) Acct.tla, a TLA+ model of the design of accounting.go with one action per persistence/transmit step, is model-checked against the "
               "property contract (AcctContract.tla): the clauses the design meets are proved for small constants, for the others TLC produces the shortest counterexample run, "
               "which is replayed on the real code; the liveness property is checked under fairness. (2) The real AccountingManager + Client run against a scripted UDP RADIUS peer: "
-              "base histories (canonical + seeded sample of all start/interim/stop/pump/tick/graceful sequences) x per-record refusal scripts within the retry budget x ONE CRASH AT "
+              "base histories (canonical + seeded sample of all start/interim/stop/pump/tick/graceful sequences, plus histories with a StopSession for an identifier that is not in the session table) x per-record refusal scripts within the retry budget x ONE CRASH AT "
               "EVERY crash-point hit (a second crash in the thorough tier); every observed event of every run is judged by TLC against the contract. Bounded and, in the history "
               "dimension, sampled: hence fault enumeration, not exhaustive model checking of the code."),
         technique="TLA+ design model + contract under TLC; crash-point/outage fault enumeration on the real manager over loopback UDP, runs validated by TLC (AcctImpl.tla)",
